@@ -30,7 +30,7 @@ FRAMES = [
      'what': 'Process.pid (a model field in the contracts) is the property `return self._worker.pid`: justifies the entry '
              'assumption A-WORKERPID of the Process wrappers'},
 ]
-ASSUMPTIONS = ['A-PY', 'A-REAL', 'A-1THREAD', 'T-KERNEL waitpid / wait-status layout', 'T-PSUTIL', 'A-PIDREUSE',
+ASSUMPTIONS = ['A-POLLREAP: Popen.poll() also reaps the zombie; the model keeps the pid in K_child until a waitpid (reap_process is verified for both waitpid answers)', 'A-PY', 'A-REAL', 'A-1THREAD', 'T-KERNEL waitpid / wait-status layout', 'T-PSUTIL', 'A-PIDREUSE',
                'A-HOOKPURE', 'A-ZMQSEND', 'A-STREAMS', 'R-EXCL (protected fields stable while the slot is owned)',
                'A-ATOMIC-COMP (get_active_processes)', 'A-PARSTABLE (parallel-for rule for gen.multi)',
                'on_demand = False',
